@@ -73,7 +73,13 @@ func within(o *ev.Outcome, name string, got, want, t float64) string {
 		return fmt.Sprintf("%s returned NaN (true squared chord %.17g)", name, want)
 	}
 	if got < 0 || got > 4 {
-		return fmt.Sprintf("%s = %.17g is not a valid squared chord length", name, got)
+		// class "chord-above-4": the value is the true distance up to rounding
+		// but exceeds StraightChordAngle (updateMinDistance does not clamp the
+		// endpoint distance the way ChordAngleBetweenPoints does).
+		if got > 4 && got <= 4+1e-14 && want >= 4-1e-13 {
+			o.Finding = "chord-above-4"
+		}
+		return fmt.Sprintf("%s = %.17g is not a valid squared chord length (true %.17g)", name, got, want)
 	}
 	d := got - want
 	if math.Abs(d) > t {
@@ -148,7 +154,10 @@ func checkPoint(c ptCase) ev.Outcome {
 	gotM := float64(cell.MaxDistance(p))
 
 	fail := func(msg, finding string) ev.Outcome {
-		o.Err, o.Finding = msg, finding
+		o.Err = msg
+		if finding != "" {
+			o.Finding = finding
+		}
 		return o
 	}
 	if math.IsNaN(gotD) || math.IsNaN(gotB) {
@@ -284,24 +293,23 @@ func checkEdge(c edgeCase) ev.Outcome {
 		}
 		return ""
 	}
-	// ulpEdge: the edge is 1-4 ulps long (chord ≤ 1e-15, A != B) and a cell
-	// vertex lies within 1e-13 of its antipode: UpdateMinDistance's interior
-	// test is then decided by rounding noise (confirmed defect, class
-	// "ulp-edge-antipodal-vertex").
+	// ulpEdge: the edge is only a few ulps long (chord ≤ 1e-15, A != B).
+	// UpdateMinDistance's test "is the closest point interior to AB" is then
+	// decided by rounding noise for a cell vertex in the hemisphere opposite
+	// to the edge, and the distance to the great circle (≈ 0 near the
+	// antipode) is returned instead of the distance to A (confirmed defect,
+	// class "ulp-edge-far-vertex").
 	ulpEdge := func() string {
-		if a == b || a.Sub(b.Vector).Norm() > 1e-15 {
-			return ""
-		}
-		for k := 0; k < 4; k++ {
-			v := cell.Vertex(k)
-			if v.Add(a.Vector).Norm() <= 1e-13 || v.Sub(a.Vector).Norm() <= 1e-13 {
-				return "ulp-edge-antipodal-vertex"
-			}
+		if a != b && a.Sub(b.Vector).Norm() <= 1e-15 {
+			return "ulp-edge-far-vertex"
 		}
 		return ""
 	}
 	fail := func(msg string) ev.Outcome {
-		o.Err, o.Finding = msg+" ["+o.Class+"]", nanCause()
+		o.Err = msg + " [" + o.Class + "]"
+		if o.Finding == "" {
+			o.Finding = nanCause()
+		}
 		if o.Finding == "" {
 			o.Finding = ulpEdge()
 		}
@@ -387,6 +395,38 @@ func checkPair(c pairCase) ev.Outcome {
 	fail := func(msg string) ev.Outcome {
 		o.Err = msg + " [" + o.Class + "]"
 		return o
+	}
+	// id-range relations agree with the lattice squares decoded from the id bits
+	sqIn := func(x, y mcell) bool { // x within y
+		return x.face == y.face && x.i0 >= y.i0 && x.j0 >= y.j0 && x.i0+x.size <= y.i0+y.size && x.j0+x.size <= y.j0+y.size
+	}
+	bInA, aInB := sqIn(gb.m, ga.m), sqIn(ga.m, gb.m)
+	if ca.ContainsCell(cb) != bInA || cb.ContainsCell(ca) != aInB || ca.IntersectsCell(cb) != (bInA || aInB) || nested != (bInA || aInB) {
+		return fail(fmt.Sprintf("ContainsCell/IntersectsCell (%v,%v,%v) disagree with the lattice squares (B in A %v, A in B %v)", ca.ContainsCell(cb), cb.ContainsCell(ca), ca.IntersectsCell(cb), bInA, aInB))
+	}
+	// corners that coincide on the integer cube are the same Point, bit for bit
+	cubeCorner := func(m mcell, k int) [3]int64 {
+		const M = 1 << 30
+		i, j := m.i0, m.j0
+		if k == 1 || k == 2 {
+			i += m.size
+		}
+		if k >= 2 {
+			j += m.size
+		}
+		v := gen.FaceUVToXYZ(m.face, float64(2*i-M), float64(2*j-M))
+		w := gen.FaceUVToXYZ(m.face, 0, 0)
+		return [3]int64{int64(v.X + w.X*(M-1)), int64(v.Y + w.Y*(M-1)), int64(v.Z + w.Z*(M-1))}
+	}
+	for k := 0; k < 4; k++ {
+		for l := 0; l < 4; l++ {
+			if cubeCorner(ga.m, k) == cubeCorner(gb.m, l) {
+				count(&o, "shared lattice corner")
+				if ca.Vertex(k) != cb.Vertex(l) {
+					return fail(fmt.Sprintf("cells share a lattice corner but Vertex(%d)=%v and Vertex(%d)=%v differ", k, ca.Vertex(k), l, cb.Vertex(l)))
+				}
+			}
+		}
 	}
 	for i, pr := range [][2]s2.Cell{{ca, cb}, {cb, ca}} {
 		sw := ""
@@ -639,7 +679,9 @@ func checkChildren(c idCase) ev.Outcome {
 		o.Err = "face cell id"
 		return o
 	}
-	step := func(parent s2.Cell, pid uint64) ([4]s2.Cell, string) {
+	// step compares all four children with the directly constructed cells and
+	// checks the accessors of child `follow` (all four if follow < 0) against the model.
+	step := func(parent s2.Cell, pid uint64, follow int) ([4]s2.Cell, string) {
 		kids, ok := parent.Children()
 		if !ok {
 			return kids, fmt.Sprintf("Children() of non-leaf %#x returned false", pid)
@@ -658,6 +700,12 @@ func checkChildren(c idCase) ev.Outcome {
 			if !parent.ContainsCell(kids[k]) || !parent.IntersectsCell(kids[k]) || kids[k].ContainsCell(parent) {
 				return kids, "ContainsCell/IntersectsCell between parent and child"
 			}
+			if follow >= 0 && k != follow {
+				if e := boundMismatch(kids[k], modelCell(want)); e != "" {
+					return kids, fmt.Sprintf("cell %#x: %s", want, e)
+				}
+				continue
+			}
 			if e := accessors(kids[k], want); e != "" {
 				return kids, fmt.Sprintf("cell %#x: %s", want, e)
 			}
@@ -669,12 +717,12 @@ func checkChildren(c idCase) ev.Outcome {
 		return o
 	}
 	for l := 1; l <= level; l++ {
-		kids, e := step(cur, curID)
+		k := childPos(c.ID, l)
+		kids, e := step(cur, curID, k)
 		if e != "" {
 			o.Err = e
 			return o
 		}
-		k := childPos(c.ID, l)
 		cur = kids[k]
 		curID = uint64(cur.ID())
 	}
@@ -699,7 +747,7 @@ func checkChildren(c idCase) ev.Outcome {
 		}
 		return o
 	}
-	if _, e := step(cur, curID); e != "" {
+	if _, e := step(cur, curID, -1); e != "" {
 		o.Err = e
 	}
 	return o
@@ -840,24 +888,24 @@ var _ = s1.ChordAngle(0)
 
 func init() {
 	ev.Define("point_distance", ev.Options{
-		Rule: "cell from gen.CellID (all faces, levels 0-30, path-biased to face edges/corners); target point placed relative to the cell: inside, exactly on a side's u/v, vertex ± ulps, log-uniform offset 1e-17..3 from a side, on the plane where the closest feature switches from side interior to vertex, at the pole of a side's great circle, 90° from a vertex/centre, unrelated; 1/3 mapped to the antipode. Oracle: exact membership + 320-bit distance to the exact cell; Distance, BoundaryDistance, MaxDistance within tol(d²)=1e-14·d²+2d·4e-15+(4e-15)² (+ documented near-90° loss), Distance exactly 0 when inside by > 4ε, ContainsPoint consistent with exact membership. Non-trivial = target or its antipode within chord 1e-9 of the boundary, or the side-interior/vertex decision within 1e-9 of switching, or near-90° regime, or farthest vertex within 1e-9 of 90°.",
-		Quick: 60000, Thorough: 2500000}, genPt, checkPoint)
+		Rule:  "cell from gen.CellID (all faces, levels 0-30, path-biased to face edges/corners); target point placed relative to the cell: inside, exactly on a side's u/v, vertex ± ulps, log-uniform offset 1e-17..3 from a side, on the plane where the closest feature switches from side interior to vertex, at the pole of a side's great circle, 90° from a vertex/centre, unrelated; 1/3 mapped to the antipode. Oracle: exact membership + 320-bit distance to the exact cell; Distance, BoundaryDistance, MaxDistance within tol(d²)=1e-14·d²+2d·4e-15+(4e-15)² (+ documented near-90° loss), Distance exactly 0 when inside by > 4ε, ContainsPoint consistent with exact membership. Non-trivial = target or its antipode within chord 1e-9 of the boundary, or the side-interior/vertex decision within 1e-9 of switching, or near-90° regime, or farthest vertex within 1e-9 of 90°.",
+		Quick: 80000, Thorough: 3000000}, genPt, checkPoint)
 	ev.Define("edge_distance", ev.Options{
-		Rule: "cell as above; edge endpoints from the point placements above, related pairs, edges reflected through a point of the cell (crossing), edges through a vertex (grazing, ± tilt 1e-18..1e-6), edges along a side's great circle, degenerate edges, 1/4 antipodal; endpoints not within 1e-6 of antipodal. Oracle: 0 if an endpoint is in the exact cell or the edge meets a side (320-bit), else min over corner→edge and endpoint→sides. DistanceToEdge (both endpoint orders) and MaxDistanceToEdge (= π − distance to the antipodal edge) within tol. Non-trivial = a corner within chord 1e-9 of the edge or an endpoint within 1e-9 of the boundary (for the edge or its antipode), near-90° regime, or max within 1e-9 of 90°.",
-		Quick: 30000, Thorough: 1200000}, genEdge, checkEdge)
+		Rule:  "cell as above; edge endpoints from the point placements above, related pairs, edges reflected through a point of the cell (crossing), edges through a vertex (grazing, ± tilt 1e-18..1e-6), edges along a side's great circle, degenerate edges, 1/4 antipodal; endpoints not within 1e-6 of antipodal. Oracle: 0 if an endpoint is in the exact cell or the edge meets a side (320-bit), else min over corner→edge and endpoint→sides. DistanceToEdge (both endpoint orders) and MaxDistanceToEdge (= π − distance to the antipodal edge) within tol. Non-trivial = a corner within chord 1e-9 of the edge or an endpoint within 1e-9 of the boundary (for the edge or its antipode), near-90° regime, or max within 1e-9 of 90°.",
+		Quick: 40000, Thorough: 1500000}, genEdge, checkEdge)
 	ev.Define("cell_distance", ev.Options{
-		Rule: "cell pairs: independent, ancestor/descendant, edge neighbours (re-levelled ±3), all neighbours at finer levels, the cell around a point placed relative to the first cell, the antipodal cell and its neighbours. Oracle: contact decided on the integer cube lattice (also across faces); otherwise 320-bit min over the 32 vertex/side pairs of the exact cells; MaxDistanceToCell = π − distance to the antipodal cell (contact: integer lattice of the negated box). Both argument orders. Non-trivial = not nested and (touching, or distance² ≤ 1e-12, or antipode touching/≤1e-12, or different faces).",
-		Quick: 20000, Thorough: 800000}, genPair, checkPair)
+		Rule:  "cell pairs: independent, ancestor/descendant, edge neighbours (re-levelled ±3), all neighbours at finer levels, the cell around a point placed relative to the first cell, the antipodal cell and its neighbours. Oracle: contact decided on the integer cube lattice (also across faces); otherwise 320-bit min over the 32 vertex/side pairs of the exact cells; MaxDistanceToCell = π − distance to the antipodal cell (contact: integer lattice of the negated box). Both argument orders. Non-trivial = not nested and (touching, or distance² ≤ 1e-12, or antipode touching/≤1e-12, or different faces).",
+		Quick: 25000, Thorough: 1000000}, genPair, checkPair)
 	ev.Define("contains_point", ev.Options{
-		Rule: "half: arbitrary/cell-derived point and an ancestor (any level) of CellFromPoint(p); half: point placed relative to a cell. Leaf id within the cell's id range ⇒ ContainsPoint; point in the exact closed cell (decided exactly) ⇒ ContainsPoint; outside by more than 2ε(1+|u|) or on the wrong side of the face plane ⇒ not contained. Non-trivial = |uv margin| ≤ 8ε, or leaf-range and exact membership disagree.",
-		Quick: 60000, Thorough: 3000000}, genContains, checkContains)
+		Rule:  "half: arbitrary/cell-derived point and an ancestor (any level) of CellFromPoint(p); half: point placed relative to a cell. Leaf id within the cell's id range ⇒ ContainsPoint; point in the exact closed cell (decided exactly) ⇒ ContainsPoint; outside by more than 2ε(1+|u|) or on the wrong side of the face plane ⇒ not contained. Non-trivial = |uv margin| ≤ 8ε, or leaf-range and exact membership disagree.",
+		Quick: 100000, Thorough: 4000000}, genContains, checkContains)
 	ev.Define("bounds", ev.Options{
-		Rule: "points decided exactly to lie in the closed exact cell (interior, on sides, at corners, moved ≤ 8 ulps inward if rounding put them outside): RectBound contains LatLngFromPoint(p) and the four vertices (strict), CapBound contains p and the exact corners up to 10ε·r+4ε·√r (strict ContainsPoint misses are counted). Non-trivial = within 1e-6 of the cell size of the boundary.",
-		Quick: 40000, Thorough: 2000000}, genInside, checkBounds)
+		Rule:  "points decided exactly to lie in the closed exact cell (interior, on sides, at corners, moved ≤ 8 ulps inward if rounding put them outside): RectBound contains LatLngFromPoint(p) and the four vertices (strict), CapBound contains p and the exact corners up to 10ε·r+4ε·√r (strict ContainsPoint misses are counted). Non-trivial = within 1e-6 of the cell size of the boundary.",
+		Quick: 50000, Thorough: 2500000}, genInside, checkBounds)
 	ev.Define("children", ev.Options{
-		Rule: "random cell id; walk from the face cell along its child positions: at every level all four Children() are bit-identical (struct equality, incl. unexported orientation) to CellFromCellID(child id), ids match the bit layout, and every exported accessor (BoundUV, VertexRaw, Vertex, EdgeRaw, Edge, Center, IJ/UVCoordOfEdge, SizeIJ/ST, IsLeaf) matches the lattice model decoded from the id bits; uv bounds within 2ε of the exact quadratic transform. Non-trivial = level ≥ 1.",
-		Quick: 4000, Thorough: 150000}, genID, checkChildren)
+		Rule:  "random cell id; walk from the face cell along its child positions: at every level all four Children() are bit-identical (struct equality, incl. unexported orientation) to CellFromCellID(child id), ids match the bit layout, BoundUV of all four matches the lattice model, and for the followed child (all four at the last level) every exported accessor (BoundUV, VertexRaw, Vertex, EdgeRaw, Edge, Center, IJ/UVCoordOfEdge, SizeIJ/ST, IsLeaf) matches the lattice model decoded from the id bits; uv bounds within 2ε of the exact quadratic transform. Non-trivial = level ≥ 1.",
+		Quick: 5000, Thorough: 150000}, genID, checkChildren)
 	ev.Define("padded_cell", ev.Options{
-		Rule: "random cell id and padding in [0,0.5]: down the path, PaddedCellFromParentIJ(parent, ChildIJ(pos)) equals PaddedCellFromCellID(child) on every accessor and both match the lattice model (Bound, Middle, Center, ChildIJ vs curve definition, Entry/ExitVertex = corner owned by the first/last leaf of the id range). Non-trivial = level ≥ 1.",
-		Quick: 4000, Thorough: 150000}, genPad, checkPadded)
+		Rule:  "random cell id and padding in [0,0.5]: down the path, PaddedCellFromParentIJ(parent, ChildIJ(pos)) equals PaddedCellFromCellID(child) on every accessor and both match the lattice model (Bound, Middle, Center, ChildIJ vs curve definition, Entry/ExitVertex = corner owned by the first/last leaf of the id range). Non-trivial = level ≥ 1.",
+		Quick: 20000, Thorough: 500000}, genPad, checkPadded)
 }
